@@ -20,6 +20,10 @@ def setItemVar : SetItem → String
 def mergeClauses (s : Stmt) : List (PathPat × List SetItem × List SetItem) :=
   s.updates.filterMap fun | .merge p oc om => some (p, oc, om) | _ => none
 
+/-- C12-merge-set-not-counted: MERGE with ON CREATE SET / ON MATCH SET (their writes are not counted; how often
+    ON MATCH is applied — once per enumerated direction and copy — is therefore not observable in the count) -/
+def mergeSet (s : Stmt) : Bool := (mergeClauses s).any fun (_, oc, om) => !oc.isEmpty || !om.isEmpty
+
 def patternVars (p : PathPat) : List String :=
   p.start.var.toList ++ p.steps.flatMap fun (rp, np) => rp.var.toList ++ np.var.toList
 
@@ -96,19 +100,12 @@ def relResurrect (g : Graph) (names : List String) (s : Stmt) : Bool :=
     | _ => false
   | .error _ => false
 
-/-- C12-merge-match-multiplicity: a relationship MERGE with ON MATCH SET over an undirected pattern or a graph with
-    parallel copies: the engine applies ON MATCH once per (direction, copy) it enumerates — twice for an undirected
-    self-loop, once per identity when the pattern has a relationship property map — the reference once per match -/
-def mergeMatchMult (g : Graph) (s : Stmt) : Bool :=
-  (mergeClauses s).any fun (p, _, om) =>
-    !om.isEmpty && p.steps.any fun (rp, _) => rp.dir == .both || Findings.hasParallel g
-
 def triggers (g : Graph) (names : List String) (s : Stmt) : List String :=
+  (if mergeSet s then ["C12-merge-set-not-counted"] else []) ++
   (if nullBound A params g s then ["C12-null-bound-variable-recreated"] else []) ++
   (if repeatedTarget A params g s then ["C12-writes-decided-against-snapshot"] else []) ++
   (if mergePartial A params g s then ["C12-merge-partial-pattern-reuse"] else []) ++
   (if mergeStale s then ["C12-merge-stale-overlay"] else []) ++
-  (if mergeMatchMult g s then ["C12-merge-match-multiplicity"] else []) ++
   (if setReordered s then ["C12-merge-set-items-reordered"] else []) ++
   (if relResurrect A params g names s then ["C12-deleted-rel-props-resurrect"] else [])
 
